@@ -119,3 +119,32 @@ package server
 //@ ensures [C03] limOK(p)
 //@ ensures [C03] forall o uint16 :: locked(p, o) == (o == id || old(locked(p, o)))
 //@ ensures [C03] p.freePid == old(p.freePid)
+
+// ---------------------------------------------------------------------------
+// C01 / C12 — what the broker enqueues for one matching subscription (server.addMsgToQueueLocked)
+//
+// lifetimeNs: the lifetime of a message in nanoseconds: the publisher's Message Expiry Interval e (seconds)
+// capped by the configured maximum lifetime cap (a time.Duration); 0 = never expires.
+
+//@ spec func lifetimeNs(e uint32, cap time.Duration) int = cap == 0 ? int(e) * 1000000000 : (e == 0 ? int(cap) : min(int(e) * 1000000000, int(cap)))
+//@ spec func skipQos0(srv *server, clientID string, qos uint8) bool = !srv.config.MQTT.QueueQos0Msg && srv.clients[clientID] == nil && qos == 0
+
+//@ func (*server).addMsgToQueueLocked
+//@ props C01 C12
+//@ requires srv != nil && msg != nil && sub != nil && q != nil
+//@ requires msg != sub
+//@ requires srv.config.MQTT.MessageExpiry >= 0
+//@ witness e = msg.MessageExpiry
+//@ witness cap = srv.config.MQTT.MessageExpiry
+//@ modifies heap, ghost(q.$adds)
+//@ ensures [C01] old(skipQos0(srv, clientID, msg.QoS)) ==> q.$adds == old(q.$adds)
+//@ ensures [C01] !old(skipQos0(srv, clientID, msg.QoS)) ==> q.$adds == old(q.$adds) + 1
+//@ call Add#1 assert [C01] elem.MessageWithID.(type *queue.Publish) && elem.MessageWithID.(*queue.Publish).Message == msg
+//@ call Add#1 assert [C01] msg.QoS == min(old(msg.QoS), old(sub.QoS))
+//@ call Add#1 assert [C01] msg.Dup == false
+//@ call Add#1 assert [C01] msg.Retained == (old(msg.Retained) && old(sub.RetainAsPublished))
+//@ call Add#1 assert [C01] msg.PacketID == old(msg.PacketID) && msg.Topic == old(msg.Topic) && msg.Payload == old(msg.Payload)
+//@ call Add#1 assert [C12] elem.At == now
+//@ call Add#1 assert [C12] lifetimeNs(old(msg.MessageExpiry), old(srv.config.MQTT.MessageExpiry)) == 0 ==> elem.Expiry == 0
+//@ call Add#1 assert [C12] lifetimeNs(old(msg.MessageExpiry), old(srv.config.MQTT.MessageExpiry)) != 0 ==> elem.Expiry == now + lifetimeNs(old(msg.MessageExpiry), old(srv.config.MQTT.MessageExpiry))
+//@ call Add#1 assert [C12] msg.MessageExpiry == old(msg.MessageExpiry)
